@@ -76,6 +76,19 @@ def fields_of_pep440(s):
                 build=".".join(str(x) for x in v["local"]) if v["local"] else None)
 
 
+def vars_from_tag(tag):
+    """version variables a canonical-shape tag denotes (independent of zerv's parsers), or None"""
+    t = tag[1:] if tag[:1] == "v" else tag
+    f = fields_of_semver(t)
+    if f is None:
+        f = fields_of_pep440(t)
+    if f is None:
+        return None
+    lab = {"alpha": "Alpha", "beta": "Beta", "rc": "Rc"}
+    return dict(epoch=f["epoch"], major=f["major"], minor=f["minor"], patch=f["patch"],
+                pre_release=(lab[f["pre"][0]], f["pre"][1]) if f["pre"] else None, post=f["post"], dev=f["dev"])
+
+
 def gen_fields(rng, bound):
     nums = [0, 1, 2, 9, 10, 99, 2 ** 31, 2 ** 32 - 2, 2 ** 32 - 1]
     if bound > U32:
